@@ -56,7 +56,7 @@ TRUSTED = ["encoding/gob round trip: dec (enc i) = Some i (section hypothesis; n
            "runner-side instance of the codec (Model/FileDiskCodec.v, round trip proved) and SHA-1 values passed in by the driver"]
 ASSUMPTIONS = ["no I/O errors during the operation other than the crash itself",
                "one operation at a time per mailbox (the per-mailbox lock; interleavings are C09)"]
-NOT_PROVED = ["crash_atomic_stmt (Proofs/FileDiskWitness.v): 'the interrupted operation has happened completely or not at all' for EVERY operation is FALSE for a delivery that evicts for the mailbox cap (crash_atomic_stmt_false, crash_atomic_capped_refuted, open finding K-C11-evict-then-append); proved instead: crash_atomic_partial (no eviction) and crash_atomic_capped (old minus 1..evictions oldest, or new)",
+NOT_PROVED = ["crash_atomic_stmt (Proofs/FileDiskWitness.v): 'the interrupted operation has happened completely or not at all' for EVERY operation is FALSE for a delivery that evicts for the mailbox cap (crash_atomic_stmt_false, crash_atomic_capped_refuted, open finding K-C11-evict-then-append); proved instead: crash_atomic_uncapped (every operation, store without a cap), crash_atomic_partial (no eviction in this operation) and crash_atomic_capped (old minus 1..evictions oldest, or new)",
               "untouched_intact concludes membership (same entry, same content); the ORDER of the untouched messages follows from crash_atomic_capped (the crash state is a suffix of the old listing or the new listing)"]
 
 
